@@ -42,6 +42,9 @@ fn run<T: Sc>(case: &C14Case) -> Check {
     let nu = (n - m - p) as f64;
     let q = m + p;
     let cov = Mat::from_na(&st.cov());
+    if (cov.r, cov.c) != (q, q) {
+        return Err(Fail::new("c14.covariance_shape", format!("the covariance matrix behind the band is {}x{}, expected {q}x{q}", cov.r, cov.c)));
+    }
     let c = fo.coeffs.as_ref().ok_or_else(|| Fail::new("c14.no_coefficients", "statistics without coefficients".to_string()))?;
     // rows of the UNWEIGHTED model-function Jacobian at the optimum
     let j = stats_h(fo.problem.as_ref(), &Mat::from_na(c), false).map_err(|e| Fail::new("c14.model", e))?;
